@@ -139,7 +139,7 @@ func runC05(c *Ctx) {
 	s := NewSys(ics, r.Chance(1, 3), r.Chance(1, 4), extra...)
 	pool := gen.Hostile.Table(r, r.Range(4, 24))
 	var ops []opRec
-	for i := r.Range(4, 30); i > 0; i-- {
+	for i := r.Range(4, 40); i > 0; i-- {
 		live := s.LivePatterns()
 		switch x := r.Intn(100); {
 		case x < 60 || len(live) == 0:
@@ -202,6 +202,21 @@ func runC05(c *Ctx) {
 		}
 		if q.Path == "" || q.Path == "*" {
 			c.Class("request_star_or_empty_path")
+		}
+	}
+
+	// (1b) index-targeting requests: a prefix of some pool pattern followed by a byte that starts (or once started) a sibling
+	for k := 0; k < 30 && !c.Violated(); k++ {
+		p := ref.Pick(r, pool)
+		cut := gen.Cut(r, p)
+		if inToken(p, cut) {
+			continue
+		}
+		path := p[:cut] + ref.Pick(r, gen.FanBytes) + ref.Pick(r, []string{"", "x", "/", "7"})
+		o := mon.Do(s.R, mon.Req{Method: "GET", Path: path})
+		c.Eval()
+		if o.Panicked || o.NilHandler {
+			c.Violate(fmt.Sprintf("Router.ServeHTTP panicked or nil handler on %q: %v", path, o.Panic), info(map[string]any{"path": short(path)})())
 		}
 	}
 
@@ -354,7 +369,7 @@ func init() {
 	Register(&Engine{
 		ID:       "C05",
 		Anchors:  []string{"tree.go:Handler", "syntax.go:Interceptors.Split", "syntax.go:splitString", "segment.go:Interceptors.NewSegment", "match.go:Hosts.Match", "match.go:validOptionalPort", "match.go:pathVersion.Match", "match.go:headerVersion.Match", "mux.go:CheckSyntax", "mux.go:URL", "group.go:ServeHTTP"},
-		Cases:    func(t string) int { return map[string]int{"quick": 800, "thorough": 40000}[t] },
+		Cases:    func(t string) int { return map[string]int{"quick": 1200, "thorough": 40000}[t] },
 		Run:      runC05,
 		Directed: c05Directed,
 		Rule: "case = router reached by a random Handle/Remove/Clean history, then 40 requests with arbitrary method/path/host/header bytes (\"\", \"*\", no leading slash, 70 kB, non-UTF-8), 25 requests through a Group with Hosts/version/And/Or matchers and the matchers alone, 30 hostile pattern strings through CheckSyntax, URL, Router.URL and Handle (fresh and populated router); " +
